@@ -57,7 +57,7 @@ inductive CancelSpec where
   | noop                 -- returns without firing
   | firesOk (v : Nat)    -- calls `d.callback(v)`
   | firesErr (e : Nat)   -- calls `d.errback(UserError(e))`
-  | raises               -- raises an Exception
+  | raises               -- raises (anything: the aggregates catch `BaseException`)
   deriving Repr, DecidableEq
 
 /-- an input Deferred -/
